@@ -78,6 +78,8 @@ func zzDefQuery(text string) (*query.Query, error) {
 			&query.NumberCondition{Summands: []query.NumberConditionSummand{{SubQuery: "s", Type: cp, Factor: -1}}, Number: 1000},
 			&query.NumberCondition{Summands: []query.NumberConditionSummand{{Type: cp, Factor: 1}, {SubQuery: "s", Type: cp, Factor: -1}}, Number: 0},
 		}}}, nil
+	case "mark:m":
+		return &query.Query{Conditions: query.ConditionsSet{{zzTagCond("", "mark/m")}}}, nil
 	case "sport:9":
 		return &query.Query{Conditions: query.ConditionsSet{{zzNum(sp, 1, -9), zzNum(sp, -1, 9)}}}, nil
 	case "sport:80":
@@ -268,7 +270,7 @@ func ZZ_C11_TagCalls() {
 		name := names[zz.Choice("name", len(names))]
 		call := 0
 		if zz.Param("callset", 0) == 0 {
-			call = zz.Choice("call", 6)
+			call = zz.Choice("call", zz.Param("allcallkinds", 6))
 		} else {
 			call = []int{0, 1, 4, 3}[zz.Choice("call3", zz.Param("callkinds", 3))]
 		}
@@ -292,6 +294,19 @@ func ZZ_C11_TagCalls() {
 				UpdateTagOperationUpdateColor("#333333")(i)
 				UpdateTagOperationMarkAddStream([]uint64{uint64(zz.Choice("markstream", 6))})(i)
 			})
+		case 6, 7: // mark / unmark one stream (ids 0..5; the service knows streams 0..3)
+			ms := uint64(zz.Choice("markstream", 6))
+			if call == 6 {
+				err = mgr.UpdateTag(name, UpdateTagOperationMarkAddStream([]uint64{ms}))
+			} else {
+				err = mgr.UpdateTag(name, UpdateTagOperationMarkDelStream([]uint64{ms}))
+			}
+			if err == nil {
+				zzInService(mgr, func() {
+					t := mgr.tags[name]
+					zz.Assert(t != nil && t.Matches.IsSet(uint(ms)) == (call == 6), "accepted-mark-change-is-applied")
+				})
+			}
 		}
 		zz.Cover("call-returned")
 		zzInService(mgr, func() {
